@@ -88,17 +88,19 @@ Shapes3 == {"and3", "or3", "ao", "oa", "pao", "apo", "poa", "opa"}
 Shapes4 == {"papa", "popo", "nest", "nest2", "flat4", "flat4b"}
 TB == {StrT("a", "=", "sx", "."), StrT("a", "!=", "sx", "span."), NumT("b", ">", 2, "resource."), DurT(">", 2)}
       \cup (IF Thorough THEN {NameT("=", "p")} ELSE {})
+TB4 == IF Thorough THEN TB ELSE {StrT("a", "=", "sx", "."), NumT("b", ">", 2, "resource."), DurT(">", 2)}
 BoolSpans == {Span(a, b, nm, dur, 1) : a \in {"sx", "sy", "none"}, b \in {"n1", "n3", "none"},
                                        nm \in (IF Thorough THEN {"p", "q"} ELSE {"p"}), dur \in {1, 3}}
 BoolSels ==
   {Sel(sh, t1, Fill, Fill, Fill, NoAgg) : sh \in Shapes1, t1 \in TB}
   \cup {Sel(sh, t1, t2, Fill, Fill, NoAgg) : sh \in Shapes2, t1 \in TB, t2 \in TB}
   \cup {Sel(sh, t1, t2, t3, Fill, NoAgg) : sh \in Shapes3, t1 \in TB, t2 \in TB, t3 \in TB}
-  \cup {Sel(sh, t1, t2, t3, t4, NoAgg) : sh \in Shapes4, t1 \in TB, t2 \in TB, t3 \in TB, t4 \in TB}
+  \cup {Sel(sh, t1, t2, t3, t4, NoAgg) : sh \in Shapes4, t1 \in TB4, t2 \in TB4, t3 \in TB4, t4 \in TB4}
 BoolQ == {Search1(sel, 0, 3, 5) : sel \in BoolSels}
 BoolDB(q) == {<< <<s>> >> : s \in BoolSpans}
              \cup (IF q.sels[1].sh \in {"and2", "or2"} \/ (Thorough /\ q.sels[1].sh \in {"ao", "apo"})
-                   THEN {<< <<s1, At(s2, 2)>> >> : s1 \in BoolSpans, s2 \in BoolSpans} ELSE {})
+                   THEN {<< <<pp[1], At(pp[2], 2)>> >> : pp \in {x \in BoolSpans \X BoolSpans : Thorough \/ SpanCode(x[2]) >= SpanCode(x[1])}}
+                   ELSE {})
 
 \* =========================================================================
 \* layer agg: aggregate filters over the matched spans of a trace
@@ -108,13 +110,23 @@ Aggs == {[fn |-> "count", attr |-> "-", op |-> op, c |-> c] : op \in CmpOps, c \
                 fn \in {"avg", "min", "max"}, at \in {"dur", "b"}, op \in CmpOps, c \in {1, 2, 3}}
         \cup {[fn |-> "sum", attr |-> at, op |-> op, c |-> c] : at \in {"dur", "b"}, op \in CmpOps, c \in {2, 3, 4}}
 AggQ == {Search1(Sel1(t, g), 0, 3, 5) : t \in AggTerms, g \in Aggs}
-AggSpans == {Span(a, b, "p", dur, 1) : a \in (IF Thorough THEN {"sx", "sy", "none"} ELSE {"sx", "none"}),
-                                       b \in {"n1", "n3", "sx", "none"}, dur \in {1, 3}}
-AggDB(q) == {<< <<pp[1], At(pp[2], 2)>> >> : pp \in {x \in AggSpans \X AggSpans : Thorough \/ SpanCode(x[2]) >= SpanCode(x[1])}}
-            \cup (IF q.sels[1].agg.fn \in {"count", "avg"} /\ q.sels[1].t[1].k = "str"
-                  THEN {<< <<s1, At(s2, 2), At(s3, 2)>> >> : s1 \in {s \in AggSpans : s.a = "sx" /\ s.b # "none"},
-                              s2 \in {s \in AggSpans : s.b \in {"n1", "n3"}}, s3 \in {s \in AggSpans : s.a = "sx" /\ s.b \in {"n3", "sx"}}}
-                  ELSE {})
+\* only the dimensions the query looks at vary (quick); everything varies (thorough)
+AggSpansOf(q) ==
+  LET sel == q.sels[1]
+      useA == sel.t[1].k = "str"
+      useD == sel.t[1].k = "dur" \/ sel.agg.attr = "dur"
+      useB == sel.agg.attr = "b"
+  IN {Span(a, b, "p", dur, 1) :
+        a \in (IF Thorough THEN {"sx", "sy", "none"} ELSE IF useA THEN {"sx", "none"} ELSE {"sx"}),
+        b \in (IF Thorough \/ useB THEN {"n1", "n3", "sx", "none"} ELSE {"n1"}),
+        dur \in (IF Thorough \/ useD THEN {1, 3} ELSE {3})}
+AggDB(q) ==
+  LET S == AggSpansOf(q)
+  IN {<< <<pp[1], At(pp[2], 2)>> >> : pp \in {x \in S \X S : Thorough \/ SpanCode(x[2]) >= SpanCode(x[1])}}
+     \cup (IF q.sels[1].agg.fn \in {"count", "avg", "sum"} /\ q.sels[1].t[1].k = "str"
+           THEN {<< <<s1, At(s2, 2), At(s3, 2)>> >> : s1 \in {s \in S : s.a = "sx" /\ s.b # "none"},
+                       s2 \in {s \in S : s.b \in {"n1", "n3"}}, s3 \in {s \in S : s.a = "sx" /\ s.b \in {"n3", "sx"}}}
+           ELSE {})
 
 \* =========================================================================
 \* layer chain: selectors combined with && / ||
@@ -135,7 +147,7 @@ ChainDB(q) ==
   ELSE IF q.limit = 5 THEN {<<tr>> : tr \in ChainTraces}
   ELSE \* limit 1: two traces, which one is the most recent
        IF (UsesB(q) \/ HasAgg(q)) /\ ~Thorough THEN {}
-       ELSE {<<tr1, tr2>> : tr1 \in ChainTracesSmall, tr2 \in ChainTracesSmall}
+       ELSE {<<tr1, tr2>> : tr1 \in ChainTracesSmall, tr2 \in (IF Thorough THEN ChainTracesSmall ELSE {<<s1>> : s1 \in ChainSpansB} \cup {<<Span("sx", "n3", "p", 3, 1), Span("sy", "n3", "p", 3, 2)>>, <<Span("sy", "n3", "p", 3, 1), Span("sx", "n3", "p", 3, 2)>>})}
 
 \* =========================================================================
 \* layer win: window [1, 4) of ticks 0..4, limit, order, {} and tags / values
@@ -152,7 +164,7 @@ WinDB(q) ==
   IF q.kind # "search"
   THEN {<< <<s1>>, <<s2>> >> : s1 \in {Span(a, b, "p", 1, ts) : a \in {"sx", "sy"}, b \in {"n3", "none"}, ts \in {0, 2}},
                                 s2 \in {Span("sx", "n1", "q", 1, 2), Span("none", "n3", "q", 1, 3)}}
-  ELSE IF q.limit < 3 THEN {<<tr1, tr2>> : tr1 \in WinTraces, tr2 \in WinTraces}
+  ELSE IF q.limit < 3 THEN {<<tr1, tr2>> : tr1 \in WinTraces, tr2 \in (IF Thorough THEN WinTraces ELSE WinTracesSmall)}
   ELSE {<<tr1, tr2, tr3>> : tr1 \in (IF Thorough THEN WinTracesSmall ELSE WinTraces1),
                             tr2 \in (IF Thorough THEN WinTracesSmall ELSE WinTraces1), tr3 \in WinTraces1}
 
